@@ -42,7 +42,7 @@ def _atoms(ctx, func):
     return Atoms(ctx, func, _bool_summaries(ctx, func), _tokens(func))
 
 
-def _assign_transfer(ctx, func, atoms):
+def _assign_transfer(ctx, func, atoms, unelect_drops=('H', 'P', 'G', 'S')):
     """on_node transfer: local assignments update N:/T: facts; unelect drops state facts"""
     def on_node(node, facts):
         st = node.ast
@@ -50,8 +50,8 @@ def _assign_transfer(ctx, func, atoms):
             return facts
         new = facts
         eff = node_effects(ctx, func, node)
-        if 'unelect' in eff:
-            new = {k: v for k, v in new.items() if k not in ('H', 'P', 'G', 'S')}
+        if 'unelect' in eff and unelect_drops:
+            new = {k: v for k, v in new.items() if k not in unelect_drops}
         names = []
         if isinstance(st, ast.Assign):
             for t in st.targets:
